@@ -1498,6 +1498,59 @@ fn corpus(dec: Dec, thorough: bool) -> (Vec<(String, Vec<u8>)>, Vec<(String, Vec
                 for (shape, tt) in &tts {
                     valid.push((format!("{shape:?}"), bitcode::serialize(tt).expect("tt")));
                 }
+                // hostile structured values: every size field of the smallest valid train replaced by every
+                // extreme value, alone and consistently along the rank chain (rank k in `ranks`, in the right
+                // rank of core k-1 and in the left rank of core k), with the core data kept and emptied —
+                // the latter includes declared sizes whose product wraps around to the real data length
+                let hostile: [usize; 9] = [0, 1, 3, 1 << 16, 1 << 31, 1 << 32, 1 << 62, 1 << 63, usize::MAX];
+                let base = &tts[0].1;
+                let mut push = |name: String, t: &tensor_compress::TTVector| extra.push((name, bitcode::serialize(t).expect("tt")));
+                for h in hostile {
+                    let mut t = base.clone();
+                    t.original_dim = h;
+                    push(format!("original_dim={h}"), &t);
+                    for i in 0..base.shape.len() {
+                        let mut t = base.clone();
+                        t.shape[i] = h;
+                        push(format!("shape[{i}]={h}"), &t);
+                        let mut t = base.clone();
+                        t.shape[i] = h;
+                        t.cores[i].shape.1 = h;
+                        push(format!("shape[{i}]=core[{i}].mode={h}"), &t);
+                    }
+                    for i in 0..base.ranks.len() {
+                        let mut t = base.clone();
+                        t.ranks[i] = h;
+                        push(format!("ranks[{i}]={h}"), &t);
+                        for empty in [false, true] {
+                            let mut t = base.clone();
+                            t.ranks[i] = h;
+                            if i > 0 {
+                                t.cores[i - 1].shape.2 = h;
+                            }
+                            if i < t.cores.len() {
+                                t.cores[i].shape.0 = h;
+                            }
+                            if empty {
+                                for c in &mut t.cores {
+                                    c.data.clear();
+                                }
+                            }
+                            push(format!("rank {i} = {h} along the chain, data {}", if empty { "emptied" } else { "kept" }), &t);
+                        }
+                    }
+                    for i in 0..base.cores.len() {
+                        for f in 0..3 {
+                            let mut t = base.clone();
+                            match f {
+                                0 => t.cores[i].shape.0 = h,
+                                1 => t.cores[i].shape.1 = h,
+                                _ => t.cores[i].shape.2 = h,
+                            }
+                            push(format!("core[{i}].shape.{f}={h}"), &t);
+                        }
+                    }
+                }
             } else {
                 for k in 0..=2usize {
                     let mut w = StreamingTTWriter::new(Cursor::new(Vec::new()), TTConfig { shape: vec![2, 2], max_rank: 8, tolerance: 1e-4 }).expect("writer");
